@@ -172,6 +172,9 @@ def run_scope(prop, geom, run, seed, tag):
 def history_prefix(base, summ, line):
     """request lines from the start of the history containing `line` up to and including it"""
     req = open(base + '.req').read().splitlines()
+    if 'history_starts' not in summ:
+        # unit cases are independent: geometry line + the case itself
+        return [req[0], req[min(line, len(req) - 1)]]
     starts = summ.get('history_starts') or [0]
     st = max([s for s in starts if s <= line] or [0])
     return req[st:line + 1]
